@@ -383,10 +383,13 @@ package mint
 //@   tags C20
 //@   safety C06 C20
 //@   requires c.items != nil
-//@   modifies *c, map(c.items)
+//@   modifies *c, map(c.items), clk.t
 //@   ensures @sameref [C20] c.items == old(c.items)
 //@   ensures @hit [C20] r1 <==> old(key in c.items)
 //@   ensures @shrink [C20] forall k Str :: (k in c.items) ==> old(k in c.items) && c.items[k] == old(c.items[k])
+// an entry is dropped exactly when the clock reading of this call is after its expiration: a live entry
+// survives every read (NUT-19: every replay within the TTL is answered from the cache)
+//@   ensures @expiry [C20] old(key in c.items) ==> ((key in c.items) <==> !time.after(clk.t, old(c.items[key].expiration)))
 //@   ensures @value [C20] r1 ==> r0 == old(c.items[key].value)
 //@   ensures @others [C20] forall k Str :: k != key ==> ((k in c.items) <==> old(k in c.items)) && c.items[k] == old(c.items[k])
 
@@ -394,7 +397,7 @@ package mint
 //@   tags C20
 //@   safety C06 C20
 //@   requires c.items != nil
-//@   modifies *c, map(c.items)
+//@   modifies *c, map(c.items), clk.t
 //@   ensures @sameref [C20] c.items == old(c.items)
 //@   ensures @stored [C20] (key in c.items) ==> (old(key in c.items) && c.items[key] == old(c.items[key])) || c.items[key].value == item
 //@   ensures @nodelete [C20] old(key in c.items) ==> (key in c.items)
